@@ -79,13 +79,46 @@ it is the last event — the single exception is the deferred flush of a feature
 theorem C04_no_continue_after_fault {c : Conf} (h : Reach C O st0 script picks c) :
     FaultShape c.tr := (invB_reach h).shape
 
-/-- **the call returns**: whatever fails, is cut or is cancelled, on a finite peer input the
-machine reaches a final control point within a bound linear in the input (no wedge; that a
-blocked read on a silent peer is released by the deadline is the `setDeadline` fix, observed
-under the watchdog) -/
-theorem C04_returns (C : List Feature) (O : Oracle) (st0 : St) (script : List Peer)
+/-- **the call ends** — *partial*: on a finite peer input the machine reaches a final control point
+within a bound linear in the input. "Final" includes "blocked for good" (`hung`): see
+`C04_returns` for what the final point can be. -/
+theorem C04_returns_partial (C : List Feature) (O : Oracle) (st0 : St) (script : List Peer)
     (picks : List FName) : ∃ n, (run C O n (init st0 script picks)).pc.final = true :=
   ⟨_, run_final C O _ _ (Nat.le_refl _)⟩
+
+/-- **the call returns, or is blocked with a context that is not done / on a transport without
+deadlines** (review A, C04-3): whatever fails, is cut or is cancelled, on a finite peer input every
+run ends in one of: success; a failure; `stuck` (a pick script that is no possible map iteration:
+never produced by an observed run); or blocked for good in a read / write (`hung wr`) — and then
+the context is not done, or the watcher does not move the deadline of that direction (a plain
+`io.ReadWriter`: "on transports that support deadlines"). With `dlRd ∧ dlWr` (the code:
+`C04_gen_deadline`) a call only stays blocked while its context is live. -/
+theorem C04_returns (C : List Feature) (O : Oracle) (st0 : St) (script : List Peer)
+    (picks : List FName) : ∃ n, let c := run C O n (init st0 script picks)
+      c.pc = .done ∨ (∃ e, c.pc = .fail e) ∨ c.pc = .stuck ∨
+      ∃ wr, c.pc = .hung wr ∧ (O.cancel c.tr = false ∨ (if wr then O.dlWr else O.dlRd) = false) := by
+  obtain ⟨n, hn⟩ := C04_returns_partial C O st0 script picks
+  refine ⟨n, ?_⟩
+  have hr : Reach C O st0 script picks (run C O n (init st0 script picks)) := ⟨n, rfl⟩
+  have hs := invS_reach hr
+  have hu := invU_reach hr
+  intro c
+  have hfin : c.pc.final = true := hn
+  cases hp : c.pc with
+  | done => exact Or.inl rfl
+  | fail e => exact Or.inr (Or.inl ⟨e, rfl⟩)
+  | stuck => exact Or.inr (Or.inr (Or.inl rfl))
+  | crash => exact absurd hp hs.crash
+  | tee => exact absurd hp hs.tee
+  | hung wr =>
+    refine Or.inr (Or.inr (Or.inr ⟨wr, rfl, ?_⟩))
+    have h1 := hu.hung wr hp
+    cases hc : O.cancel c.tr
+    · exact Or.inl rfl
+    · right
+      rw [hc, Bool.true_and] at h1
+      exact h1
+  | _ => rw [hp] at hfin; cases hfin
 
 /-- **not ready on failure**: when session establishment fails, the ready bit is only set if
 the caller passed it in or a feature's own `Negotiate` had returned it — the library itself
@@ -212,9 +245,18 @@ theorem C04_cancel_progress_needs_read_deadline :
   ⟨{ quiet with block := fun k => k == 0, cancel := fun tr => tr.any (fun e => e == .blocked .hdrIn), dlRd := false },
    _, rfl, ⟨4, rfl⟩, by decide, by decide⟩
 
-/-- **no panic**: the machine never reaches the `crash` point -/
-theorem C04_no_panic {c : Conf} (h : Reach C O st0 script picks c) : c.pc ≠ .crash :=
-  (invS_reach h).crash
+/-- **no panic — what the model can say** (review A, C04-1): the places where the anchored code
+could panic by itself are the call of a nil `Negotiate` (an informational feature) and, before the
+`fix:` commit, the receiving side of the component handshake (`C04_component_receive_refused`).
+The machine has no transition into `crash` (the control point is only a name for the driver's
+`PANIC` outcome), so `pc ≠ crash` alone would be vacuous; the statement with content is: **every
+`Negotiate` the machine runs is the callback of a negotiable feature** — also the forced STARTTLS
+attempt, also on the receiving side. Everything else of "nothing panics" (callbacks, encoding/xml,
+TLS, the real features) is decided by the harness (`recover` around every run: clause `panic`). -/
+theorem C04_no_nil_call {c : Conf} (h : Reach C O st0 script picks c) {f : Feature} {st : St}
+    {rq fo sv : Bool} {r : NegRes} (he : Ev.neg f st rq fo sv r ∈ c.tr) :
+    f.negotiable = true ∧ c.pc ≠ .crash :=
+  ⟨((invA_reach h).good _ he).2, (invS_reach h).crash⟩
 
 /-! ### the component handshake as a front-end (`Model/Component.lean`)
 
@@ -281,6 +323,21 @@ theorem C04_component_returns (O : Component.Oracle) (script : List Item) :
 
 example : (Component.run ⟨fun _ => false, fun _ => false, fun _ => false, true, true⟩ 10
     (Component.init [.pi, .hdr true, .ack])).pc = .done := by decide
+
+/-- **the receiving side of the component handshake** (`component.ReceiveSession`, not implemented
+by the library): whatever the peer sends and whatever fails or is cancelled, no session is ever
+reported, nothing is read or written, and after one step the run has failed — the negotiator
+refuses with an error (before the `fix:` commit it panicked on every call: finding
+`panic|component-receive`) -/
+theorem C04_component_receive_refused (O : Component.Oracle) (script : List Item) (n : Nat) :
+    (Component.run O n (initRecv script)).pc ≠ .done ∧ (Component.run O n (initRecv script)).tr = [] ∧
+    (1 ≤ n → (Component.run O n (initRecv script)).pc = .fail .proto) := by
+  cases n with
+  | zero => exact ⟨by simp [Component.run, initRecv], rfl, by omega⟩
+  | succ n =>
+    have h : Component.step O (initRecv script) = { initRecv script with pc := .fail .proto } := rfl
+    rw [Component.run, h, Component.run_of_final O n _ rfl]
+    exact ⟨by simp, rfl, fun _ => rfl⟩
 
 end component
 
